@@ -44,12 +44,18 @@ pub fn unresolved_fault(rng: &mut Rng) -> Vec<i64> {
     let r = rng.below(100);
     let frac = rng.below(1 << 32) as i64;
     let err = rng.chance(1, 3) as i64;
-    if r < 30 {
+    if r < 28 {
         vec![0]
-    } else if r < 68 {
+    } else if r < 58 {
         vec![11, frac, err]
-    } else {
+    } else if r < 82 {
         vec![12, frac, err]
+    } else if r < 91 {
+        // flaky storage: every p-th operation from k on fails
+        vec![13, frac, err, *rng.pick(&[2i64, 2, 3, 3, 4, 5, 7, 16])]
+    } else {
+        // an outage of n operations that heals
+        vec![14, frac, err, *rng.pick(&[2i64, 2, 3, 4, 6, 12, 40])]
     }
 }
 
@@ -58,7 +64,9 @@ pub fn resolve_fault(fault: &[i64], twin_ops: u64) -> Vec<i64> {
         return fault.to_vec();
     }
     let k = ((fault[1] as u128 * twin_ops.max(1) as u128) >> 32) as i64;
-    vec![fault[0] - 10, k, fault[2]]
+    let mut v = vec![fault[0] - 10, k, fault[2]];
+    v.extend_from_slice(&fault[3..]);
+    v
 }
 
 /// (corpus items per family, fault positions per item) of the sweep block.
@@ -156,6 +164,11 @@ pub fn gen_case(prop: &str, tier: Tier, master: u64, i: u64) -> Case {
     c.set("sel", rng.below(1 << 30) as i64);
     gen_family(&mut rng, &mut c, fam, be);
     c.fault = unresolved_fault(&mut rng);
+    if c.fault[0] != 0 && c.secs.len() > 1 && rng.chance(1, 4) {
+        // one stored section is bad, the others are fine
+        c.set("fscope", 1 + rng.below(c.secs.len() as u64) as i64);
+        c.note.push_str("+scoped");
+    }
     if rng.chance(1, 30) {
         // the Relocate seam: a relocation table that fails at call k (no reader faults then:
         // this reader kind is not wrapped by the fault-injecting reader)
